@@ -16,8 +16,9 @@ SX0 = {"sym": "SX", "compact": 0}
 MX0 = {"sym": "MX", "compact": 0}
 
 
-def fns(levels, more_out=(False,), syms=("SX", "MX"), generic_calls=1, params=None):
-    return [{"sym": s, "compact": c, "more_out": mo, "generic_calls": generic_calls, "params": params or []}
+def fns(levels, more_out=(False,), syms=("SX", "MX"), generic_calls=1, params=None, first_bare=False):
+    return [{"sym": s, "compact": c, "more_out": mo, "generic_calls": generic_calls, "params": [dict(p) for p in (params or [])],
+             "first_bare": first_bare}
             for s in syms for c in levels for mo in more_out]
 
 
@@ -56,7 +57,8 @@ def param_fns(case, levels, more_out, nsets):
     out = []
     for i, ps in enumerate(param_sets(case, nsets)):
         sym = "SX" if (i + sum(case["id"].encode())) % 2 == 0 else "MX"
-        out += fns(levels, more_out=more_out, syms=(sym,), generic_calls=2, params=ps)
+        out += fns(levels, more_out=more_out, syms=(sym,), generic_calls=2, params=ps,
+                   first_bare=(i + sum(case["id"].encode())) % 3 == 0)
     return out
 
 
@@ -117,10 +119,9 @@ def rel_C13(f):
 
 
 def rel_C16(f):
-    t = tag_of(f)
-    if f[0] in ("fn.out", "fn.name_in", "fn.size_in", "fn.name_out", "fn.size_out", "fn.free", "fn.vs_plain"):
-        return t is not None and t[3] > 0
-    return f[0] in ALWAYS
+    # the parametrised functions AND the plainly numeric one compiled next to them: they must agree (both are compared
+    # with the specification evaluated at the same parameter values)
+    return f[0] in ("fn.out", "fn.name_in", "fn.size_in", "fn.name_out", "fn.size_out", "fn.free") or f[0] in ALWAYS
 
 
 def rel_C17(f):
@@ -245,13 +246,14 @@ def trajectory_cases(base_cases, tier, rng):
 
 # per property: which cases, what to observe, which clauses decide
 PLANS = {
-    "C01": dict(rel=rel_C01, want={"np": True, "fn": fns((0,))},
+    "C01": dict(rel=rel_C01, also={"neg": dict(variants=1, generic=2, corners=0)}, want={"np": True, "fn": fns((0,))},
                 quick=dict(n=3, m=3, variants=2, generic=1, corners=13, rand=60),
                 thorough=dict(n=4, m=5, variants=3, generic=2, corners=13, rand=1500)),
-    "C02": dict(rel=rel_C02, traj=True, want={"np": True, "fn": fns((0,), more_out=(True,))},
+    "C02": dict(rel=rel_C02, traj=True, also={"neg": dict(variants=2, generic=2, corners=1)}, want={"np": True, "fn": fns((0,), more_out=(True,))},
                 quick=dict(n=3, m=3, variants=2, generic=1, corners=13, rand=60),
                 thorough=dict(n=4, m=5, variants=3, generic=2, corners=13, rand=1500)),
-    "C03": dict(rel=rel_C03, traj=True, want={"np": True, "fn": fns((0, 1, 2))},
+    "C03": dict(rel=rel_C03, traj=True, also={"opts": dict(variants=1, generic=1, corners=1), "neg": dict(variants=1, generic=1, corners=0)},
+                want={"np": True, "fn": fns((0, 1, 2))},
                 quick=dict(n=3, m=3, variants=1, generic=1, corners=13, rand=40),
                 thorough=dict(n=4, m=5, variants=2, generic=2, corners=13, rand=1000)),
     "C05": dict(rel=rel_C05, traj=True, want=lambda c: {"np": False, "fn": fns((0, 1, 2), more_out=(True,))
@@ -266,14 +268,15 @@ PLANS = {
     "C10": dict(rel=rel_C10, want={"np": True, "sens": True, "jac": ["SX", "MX"]},
                 quick=dict(n=3, m=3, variants=2, generic=1, corners=0, rand=40),
                 thorough=dict(n=4, m=5, variants=4, generic=1, corners=2, rand=600)),
-    "C04": dict(rel=rel_C04, traj=True, derive=("perm",), want=lambda c: {"np": False, "fn": fns((-1, 0, 1, 2, 3), more_out=(False, True), generic_calls=2)
+    "C04": dict(rel=rel_C04, traj=True, derive=("perm",), also={"opts": dict(variants=1, generic=1, corners=0)}, want=lambda c: {"np": False, "fn": fns((-1, 0, 1, 2, 3), more_out=(False, True), generic_calls=2)
                                              + param_fns(c, levels=(0, 1, 2), more_out=(True,), nsets=1)},
                 quick=dict(n=3, m=3, variants=1, generic=1, corners=0, rand=30, nderive=2),
                 thorough=dict(n=4, m=5, variants=2, generic=1, corners=1, rand=400, nderive=2)),
     "C11": dict(rel=rel_C11, family="opts", want={"np": True, "np_plain": True, "fn": fns((0,)) + fns((2,), syms=("SX",)) + fns((1,), more_out=(True,), syms=("MX",))},
                 quick=dict(n=3, m=3, variants=1, generic=4, corners=4, rand=0),
                 thorough=dict(n=4, m=4, variants=2, generic=8, corners=13, rand=0)),
-    "C12": dict(rel=rel_C12, want={"np": True, "pure": True, "fn": []},
+    "C12": dict(rel=rel_C12, also={"opts": dict(variants=1, generic=1, corners=0), "neg": dict(variants=1, generic=1, corners=0)},
+                want={"np": True, "pure": True, "fn": []},
                 quick=dict(n=3, m=3, variants=2, generic=1, corners=3, rand=60),
                 thorough=dict(n=4, m=5, variants=3, generic=2, corners=13, rand=1000)),
     "C13": dict(rel=rel_C13, want={"np": False, "spy": True, "fn": []},
@@ -285,7 +288,8 @@ PLANS = {
     "C18": dict(rel=rel_C18, family="neutral", want={"np": True, "twin": True, "fn": fns((0,))},
                 quick=dict(n=3, m=3, variants=3, generic=1, corners=2, rand=0),
                 thorough=dict(n=4, m=5, variants=5, generic=2, corners=4, rand=0)),
-    "C16": dict(rel=rel_C16, want=lambda c: {"np": False, "fn": param_fns(c, levels=(0, 2), more_out=(False, True), nsets=3)},
+    "C16": dict(rel=rel_C16, want=lambda c: {"np": False, "fn": param_fns(c, levels=(0, 2), more_out=(False, True), nsets=3)
+                                             + fns((0,), more_out=(True,), syms=("SX" if sum(c["id"].encode()) % 2 else "MX",))},
                 quick=dict(n=3, m=3, variants=1, generic=1, corners=1, rand=30),
                 thorough=dict(n=4, m=5, variants=1, generic=1, corners=3, rand=300)),
     "C17": dict(rel=rel_C17, traj=True, want={"np": True, "fn": fns((0,), more_out=(True,))},
@@ -318,6 +322,9 @@ def run(pid: str, tier: str, plan=None, extra_cases=None) -> dict:
     cases, info = dyncases.cases(b["n"], b["m"], seed, b["variants"], b["generic"], b["corners"],
                                  family=plan.get("family", "base"))
     wantf = plan["want"] if callable(plan["want"]) else (lambda c: plan["want"])
+    for fam, fb in (plan.get("also") or {}).items():   # slices of other case families (negative inputs, options)
+        more, _ = dyncases.cases(b["n"], b["m"], seed, fb.get("variants", 1), fb.get("generic", 1), fb.get("corners", 0), family=fam)
+        cases = cases + more
     cases = [dict(c, want=wantf(c)) for c in cases]
     rng = random.Random(seed * 7919 + 13)
     rnd = [randcases.rand_case(rng, f"rand-{seed}-{i}", None, nmax=5 if tier == "quick" else 6,
@@ -370,7 +377,7 @@ def assess(pid, plan, recs, verdicts, info, nrand):
            "samples": [summarize(r) for r in (recs[:2] + recs[len(recs) // 2: len(recs) // 2 + 1] + recs[-2:])],
            "exhaustive": False, "topologies_exhaustive_within_bound": True,
            "explanation": (f"TLC enumerated all {info['shapes']} valid shapes with <= {info['shape_bound'][0]} nodes and "
-                           f"<= {info['shape_bound'][1]} links (up to renumbering; +10 larger patterns), x {info['variants']} "
+                           f"<= {info['shape_bound'][1]} links (up to renumbering; +13 larger patterns), x {info['variants']} "
                            f"decorations x {info['generic']} generic + {info['corners']} corner points = {info['cases']} cases, "
                            f"plus {nrand} seeded random realistic networks; every case executed by the real library and "
                            "every recorded execution validated by TLC against Metanet.tla/Compile.tla."),
